@@ -10,7 +10,7 @@ import loader, models, interp
 from interp import Machine, SliceRef, RStr, Ptr, Struct, Enum, Opaque, BoxObj, VecObj, Tuple, Unsupported, RustPanic, PathAbort, UNIT
 from models import model, Some, NONE, Ok, Err, deref, as_list
 
-ALPHA_FULL = [0x61, 0x20, 0x0A, 0x09, 0x27, 0x22, 0x5C, 0xA0, 0x0B, 0x85]      # a, blank, newline, tab, ', ", backslash, 0xA0, VT, 0x85
+ALPHA_FULL = [0x61, 0x20, 0x0A, 0x09, 0x27, 0x22, 0x5C, 0xA0, 0x0B, 0x85, 0x0C, 0x0D]      # a, blank, newline, tab, ', ", backslash, 0xA0, VT, 0x85, FF, CR
 ALPHA_SMALL = [0x61, 0x20, 0x0A, 0x27, 0x5C]
 
 
@@ -143,7 +143,7 @@ def ref_ws(data):
             quote = c; sawq = True
         elif c == 0x5C:
             slash = True
-        elif c in (0x20, 0x0A, 0x09, 0x0C, 0x0D):
+        elif c in (0x20, 0x0A, 0x09):              # <blank> (space, tab) and newline - not the other members of isspace()
             if cur:
                 toks.append((cur, c == 0x0A)); cur = []; sawq = False
             elif sawq:
